@@ -23,6 +23,26 @@ SIZES = [(1, 1), (7, 3), (8, 8), (9, 9), (16, 16), (33, 17), (64, 64)]
 FINDING_CLIP = "cursor-clip-last-col-row"
 FINDING_COLOUR = "xcursor-colour-unscaled"
 FINDING_SETENC = "setenc-soft-cursor-not-shown"
+FINDING_NULLCUR = "copyregion-null-cursor"
+
+
+def enc_info(tok):
+    """encodings token of a client / setenc op -> (kind the client behaves as, gets PointerPos, CopyRect)"""
+    names = {"raw": ["raw"], "x": ["raw", "x", "pos"], "rich": ["raw", "rich", "pos"]}.get(tok)
+    if names is None:
+        names = tok[4:].split(",")
+    kind = "rich" if "rich" in names else "x" if "x" in names else "raw"
+    return kind, ("pos" in names and kind != "raw"), ("copyrect" in names)
+
+
+def gen_encs(rng):
+    """a SetEncodings list in random order: Raw, maybe CopyRect, any subset of the cursor pseudo-encodings"""
+    r = rng.random()
+    if r < 0.55:
+        return rng.choice(["raw", "x", "rich"])
+    names = ["raw"] + [n for n in ("copyrect", "x", "rich", "pos") if rng.random() < 0.5]
+    rng.shuffle(names)
+    return "enc:" + ",".join(names)
 # client pixel formats the scripts can name: bytes/pixel, (redMax, greenMax, blueMax), (shifts)
 FMTS = {"f8": (1, (7, 7, 3), (0, 3, 6)), "f8b": (1, (7, 7, 3), (5, 2, 0)),
         "f16": (2, (31, 31, 31), (0, 5, 10)), "f16b": (2, (31, 63, 31), (11, 5, 0)),
@@ -156,11 +176,11 @@ def gen_script(rng, big=False, midfail=False):
     else:
         cl, spec = gen_cursor(rng, bpp)
         lines.append(cl)
-    kinds = ["raw"]
+    kinds = [rng.choice(["raw", "raw", "enc:raw,copyrect", "enc:copyrect,raw"])]
     if rng.random() < 0.7:
-        kinds.append(rng.choice(["x", "rich", "raw"]))
+        kinds.append(gen_encs(rng))
     if rng.random() < 0.3:
-        kinds.append(rng.choice(["x", "rich", "raw"]))
+        kinds.append(gen_encs(rng))
     rng.shuffle(kinds)
     for i, k in enumerate(kinds):
         if rng.random() < 0.4:
@@ -187,7 +207,21 @@ def gen_script(rng, big=False, midfail=False):
             b = 0 if rng.random() < 0.85 else rng.choice([1, 4])
             lines.append("ptr %d %d %d %d" % (rng.randrange(len(kinds)), px, py, b))
         if rng.random() < 0.12:              # a client changes its cursor capability mid-session
-            lines.append("setenc %d %s" % (rng.randrange(len(kinds)), rng.choice(["raw", "x", "rich"])))
+            lines.append("setenc %d %s" % (rng.randrange(len(kinds)), gen_encs(rng)))
+        if rng.random() < 0.25 and W >= 4 and H >= 4:      # the application scrolls part of the screen
+            for _ in range(rng.choice([1, 1, 2])):
+                dx, dy = rng.choice([(0, -1), (0, 1), (-1, 0), (1, 0), (-1, -1), (1, -1), (0, -1), (0, 1)])
+                dx *= rng.randint(1, max(1, W // 3)); dy *= rng.randint(1, max(1, H // 3))
+                # destination rectangle so that destination and source lie on the screen
+                xlo, xhi = max(0, dx), W + min(0, dx)
+                ylo, yhi = max(0, dy), H + min(0, dy)
+                if xhi - xlo < 1 or yhi - ylo < 1:
+                    continue
+                x1 = rng.randint(xlo, xhi - 1); x2 = rng.randint(x1 + 1, xhi)
+                y1 = rng.randint(ylo, yhi - 1); y2 = rng.randint(y1 + 1, yhi)
+                if rng.random() < 0.5:
+                    x1, x2, y1, y2 = xlo, xhi, ylo, yhi
+                lines.append("copy %d %d %d %d %d %d" % (x1, y1, x2, y2, dx, dy))
         for i in range(len(kinds)):
             q = rng.random()
             if q < 0.62 or big:
@@ -207,7 +241,7 @@ def gen_script(rng, big=False, midfail=False):
 
 
 PUMP_RE = re.compile(r"^c(\d+) n=1 res=(\d) before=(\w+) painted=(\w+) after=(\w+) cur=(\d+),(\d+) ucl=(\d+)"
-                     r"(?: shape=(\S+) pos=(\S+) cov=(\w+) pic=(\w+)( PARSE-ERROR)?| closed)$")
+                     r"(?: shape=(\S+) pos=(\S+) cov=(\w+) pic=(\w+)(?: ccov=\w+)?( PARSE-ERROR)?| closed)$")
 
 
 def parse_cursor_op(t, bpp):
@@ -318,7 +352,7 @@ def oracle(script, impl):
     i = 0
     bpp, W, H = 4, 0, 0
     cur = default_cursor_spec()
-    kinds, dead, owed_shape, owed_pos, cfmts = {}, set(), {}, {}, {}
+    kinds, dead, owed_shape, owed_pos, cfmts, poscap = {}, set(), {}, {}, {}, {}
     pos, pclient = (0, 0), None
     for op in ops:
         t = op.split()
@@ -381,18 +415,17 @@ def oracle(script, impl):
                 owed_shape[c] = True
         elif t[0] == "client":
             c = int(t[1])
-            kinds[c] = t[2]
+            kinds[c], poscap[c], _ = enc_info(t[2])
             cfmts[c] = t[3] if len(t) > 3 else None
             owed_shape[c] = True
-            owed_pos[c] = t[2] != "raw"
+            owed_pos[c] = poscap[c]
         elif t[0] == "setenc":
             c = int(t[1])
-            kinds[c] = t[2]
-            if t[2] != "raw":           # shape and position become due again
-                owed_shape[c] = True
-                owed_pos[c] = True
-            else:
-                owed_shape[c] = owed_pos[c] = False
+            kinds[c], poscap[c], _ = enc_info(t[2])
+            # shape and position become due again - the position whenever PointerPos is listed
+            # together with a cursor-shape encoding, in whatever order
+            owed_shape[c] = kinds[c] != "raw"
+            owed_pos[c] = poscap[c]
         elif t[0] == "ptr":
             c, x, y, b = int(t[1]), int(t[2]), int(t[3]), int(t[4]) & 0xff
             if pclient is None or pclient == c:
@@ -400,7 +433,7 @@ def oracle(script, impl):
                 if (x, y) != pos:
                     pos = (x, y)
                     for o in kinds:
-                        if o not in dead and kinds[o] != "raw":
+                        if o not in dead and poscap.get(o):
                             owed_pos[o] = (o != c)
             m = re.match(r"^pos=(\d+),(\d+) ", ob)
             if not m or (int(m.group(1)), int(m.group(2))) != pos:
@@ -414,14 +447,14 @@ def stats_of(script, impl, dist):
         t = l.split()
         if not t:
             continue
-        k = t[0] + (":" + t[1] if t[0] == "cursor" else "") + (":" + t[2] if t[0] in ("client", "setenc") else "")
+        k = t[0] + (":" + t[1] if t[0] == "cursor" else "") + (":" + ("list" if t[2].startswith("enc:") else t[2]) if t[0] in ("client", "setenc") else "")
         dist["ops"][k] = dist["ops"].get(k, 0) + 1
         if t[0] == "screen":
             dist["bpp"][t[3]] = dist["bpp"].get(t[3], 0) + 1
             sbpp = int(t[3])
         if t[0] == "client":
             cf = t[3] if len(t) > 3 else "server"
-            key = "%s:%s" % (t[2], "server" if cf in ("server", SERVER_FMT.get(sbpp)) else "%dto%d" % (sbpp * 8, FMTS[cf][0] * 8) + ("" if FMTS[cf][0] != sbpp else "-other-shifts"))
+            key = "%s:%s" % (enc_info(t[2])[0], "server" if cf in ("server", SERVER_FMT.get(sbpp)) else "%dto%d" % (sbpp * 8, FMTS[cf][0] * 8) + ("" if FMTS[cf][0] != sbpp else "-other-shifts"))
             dist["client_format"][key] = dist["client_format"].get(key, 0) + 1
         if t[0] == "cursor" and len(t) > 3:
             sz = "%sx%s" % (t[2], t[3])
@@ -503,6 +536,68 @@ def matrix_scripts(rng):
                                   "cursor x %d %d 0 0 - - 65535 65535 65535 0 0 0" % (w, h), "ptr 0 4 3 0",
                                   "req 0 1 0 0 %d %d" % (W, H), "pump", "ptr 0 %d %d 0" % (W, H),
                                   "req 0 1 0 0 %d %d" % (W, H), "pump"]) + "\n")
+    # SetEncodings lists in every order: all permutations of every subset of the cursor
+    # pseudo-encodings {PointerPos, XCursor, RichCursor} (Raw and CopyRect mixed in), for the first
+    # SetEncodings of a client and for a later one; another client moves the pointer
+    import itertools
+    subsets = [s for k in range(1, 4) for s in itertools.combinations(("pos", "x", "rich"), k)]
+    for sub in subsets:
+        for perm in itertools.permutations(sub):
+            W, H = 11, 8
+            l1 = "enc:" + ",".join(["raw"] + list(perm))
+            l2 = "enc:" + ",".join(list(reversed(perm)) + ["copyrect", "raw"])
+            full = lambda i, inc=1: "req %d %d 0 0 %d %d" % (i, inc, W, H)
+            out.append("\n".join([
+                "screen %d %d 4" % (W, H), "client 0 %s" % l1, "client 1 raw", full(0, 0), full(1, 0), "pump",
+                "ptr 1 6 3 0", full(0), full(1), "pump", "ptr 1 2 5 0", full(0), full(1), "pump",
+                "setenc 0 raw", full(0), "pump", "setenc 0 %s" % l2, "ptr 1 7 7 0", full(0), full(1), "pump",
+                "ptr 1 1 1 0", full(0), full(1), "pump"]) + "\n")
+    # scrolling with a painted soft cursor: the pointer in the strip that is only source, only
+    # destination, both, and across the boundary, for scrolls in five directions; arbitrary cursor
+    # shapes, masks and hot-spots; a soft-cursor client and a cursor-shape client, both with CopyRect
+    for (dx, dy) in ((0, -4), (0, 5), (-6, 0), (5, 0), (-3, -2)):
+        for place in ("src", "dst", "both", "edge"):
+            for ck in ("default", "rich", "x"):
+                W, H, sb = 26, 20, rng.choice([1, 2, 4])
+                xlo, xhi, ylo, yhi = max(0, dx), W + min(0, dx), max(0, dy), H + min(0, dy)   # destination
+                lines = ["screen %d %d %d" % (W, H, sb)]
+                if ck == "rich":
+                    w, h = rng.choice([(5, 4), (9, 6), (3, 7)])
+                    lines.append("cursor rich %d %d %d %d %s %s 65535 0 0 0 0 65535" % (
+                        w, h, rng.randrange(w), rng.randrange(h), hx(bytes(rng.randrange(256) for _ in range(w * h * sb))),
+                        hx(rand_bits(rng, w, h, rng.choice(["dense", "random", "full"]), True))))
+                elif ck == "x":
+                    w, h = rng.choice([(7, 5), (8, 8)])
+                    lines.append("cursor x %d %d %d %d %s %s 65535 0 0 0 0 65535" % (
+                        w, h, rng.randrange(w), rng.randrange(h), hx(rand_bits(rng, w, h, "random", True)),
+                        hx(rand_bits(rng, w, h, "dense", True))))
+                lines += ["client 0 enc:copyrect,raw", "client 1 enc:raw,rich,pos,copyrect", "client 2 raw"]
+                full = lambda i, inc=1: "req %d %d 0 0 %d %d" % (i, inc, W, H)
+                lines += [full(0, 0), full(1, 0), full(2, 0), "pump"]
+                # pointer positions: source = destination displaced by -(dx,dy)
+                def pick(lo, hi, d, which):
+                    # one axis: destination [lo,hi), source [lo-d, hi-d)
+                    if d == 0:
+                        return (lo + hi) // 2
+                    if which == "src":          # in the source but not in the destination
+                        return (hi + (hi - d)) // 2 if d < 0 else ((lo - d) + lo) // 2
+                    if which == "dst":
+                        return (lo + (lo - d)) // 2 if d < 0 else ((hi - d) + hi) // 2
+                    if which == "edge":
+                        return hi if d < 0 else lo
+                    return (lo + hi) // 2
+                px = min(W - 1, max(0, pick(xlo, xhi, dx, place)))
+                py = min(H - 1, max(0, pick(ylo, yhi, dy, place)))
+                lines += ["ptr 2 %d %d 0" % (px, py), full(0), full(1), full(2), "pump"]
+                lines += ["copy %d %d %d %d %d %d" % (xlo, ylo, xhi, yhi, dx, dy), full(0), full(1), full(2), "pump"]
+                # two copies before the next update: same direction, then another direction
+                lines += ["copy %d %d %d %d %d %d" % (xlo, ylo, xhi, yhi, dx, dy),
+                          "copy %d %d %d %d %d %d" % (xlo, ylo, xhi, yhi, dx, dy), full(0), full(1), full(2), "pump"]
+                lines += ["copy %d %d %d %d %d %d" % (xlo, ylo, xhi, yhi, dx, dy),
+                          "copy %d %d %d %d %d %d" % (max(0, -dx), max(0, -dy), W + min(0, -dx), H + min(0, -dy), -dx, -dy),
+                          "draw 1 1 4 3 %d" % rng.randint(1, 99), full(0), full(1), full(2), "pump",
+                          full(0), full(1), full(2), "pump"]
+                out.append("\n".join(lines) + "\n")
     # cursor capability switched mid-session, with the library's default cursor and without any
     # pointer movement between the switch and the next update
     for sb in (1, 3, 4):
